@@ -381,6 +381,34 @@ fn run_case(c: &Case) -> CaseOut {
                 stats,
             }
         }
+        "pfull" => {
+            // the whole logical-line parser (control flow included) against the Lean model: raw kinds and, for the
+            // assembler-instruction splitter, whether a token's leading whitespace holds a line break
+            use pasfmt_core::prelude::*;
+            let raw = DelphiLexer {}.lex(&c.input);
+            let kinds: Vec<String> = raw.iter().map(|t| format!("{:?}", t.get_token_type())).collect();
+            let nl: String = raw.iter().map(|t| if t.get_leading_whitespace().contains(['\r', '\n']) { '1' } else { '0' }).collect();
+            let n = raw.len();
+            let (lines, tokens) = DelphiLogicalLineParser {}.parse(raw);
+            let pk: Vec<String> = tokens.iter().map(|t| format!("{:?}", t.get_token_type())).collect();
+            let snap_lines: Vec<stages::LineSnap> = lines
+                .iter()
+                .map(|l| stages::LineSnap {
+                    line_type: format!("{:?}", l.get_line_type()),
+                    level: l.get_level(),
+                    parent: l.get_parent().map(|p| (p.line_index, p.global_token_index)),
+                    tokens: l.get_tokens().clone(),
+                })
+                .collect();
+            bump(&mut stats, "tokens", n);
+            bump(&mut stats, "lines", lines.len());
+            CaseOut {
+                in_line: format!("pfull\t{}\t{}", proto::list(&kinds), if nl.is_empty() { "-".to_string() } else { nl }),
+                exp_line: format!("pk={}\tpl={}", proto::list(&pk), proto::lines(&snap_lines)),
+                oracle_failures,
+                stats,
+            }
+        }
         other => panic!("unknown stream {other}"),
     }
 }
